@@ -148,20 +148,26 @@ impl SyncBlocker {
         })
     }
 
+    // `unparked` and `release` form a store buffering (Dekker) pattern: the waiter that
+    // gives up stores `release` and then loads `unparked`, the waker stores `unparked`
+    // and then swaps `release`. At least one of them must see the other's store or the
+    // hand-off (permit, lock, notification) is taken by nobody. Release/Acquire doesn't
+    // order a store with a later load of another location (not even on x86), all the
+    // four accesses have to be SeqCst
     #[inline]
     pub fn is_unparked(&self) -> bool {
-        self.unparked.load(Ordering::Acquire)
+        self.unparked.load(Ordering::SeqCst)
     }
     // set the Flag for the release action
     #[inline]
     pub fn set_release(&self) {
-        self.release.store(true, Ordering::Release);
+        self.release.store(true, Ordering::SeqCst);
     }
 
     // take the release Flag
     #[inline]
     pub fn take_release(&self) -> bool {
-        self.release.swap(false, Ordering::Acquire)
+        self.release.swap(false, Ordering::SeqCst)
     }
 
     #[inline]
@@ -172,6 +178,6 @@ impl SyncBlocker {
     #[inline]
     pub fn unpark(&self) {
         self.blocker.unpark();
-        self.unparked.store(true, Ordering::Release);
+        self.unparked.store(true, Ordering::SeqCst);
     }
 }
